@@ -7,6 +7,20 @@ ALL = ["C%02d" % i for i in range(1, 21)]
 
 # id -> (level category, technique, level text, level note, design ref)
 CHECKS = {
+    "C03": (
+        "model_checking",
+        "bounded-exhaustive enumeration of grammars x precedence configurations; every (state, token) cell re-derived from the item sets by an independent oracle",
+        "Every grammar of the listed universes and of the operator-skeleton family, under every precedence declaration of <= 2 lines and every single %prec placement, is built with the real table constructor; for every state and token the expected action is re-derived from the closed item sets, the edges and the generator's own precedence model, and the shift/reduce and reduce/reduce lists are compared as multisets with the cells settled by the two default rules; accept/reduce failures are compared with a canonical LR(1) construction.",
+        "Item sets and edges are taken as given here (C01/C02/C16 check them). At most 3 precedence levels / 3-way reduce-reduce inside the universes.",
+        "DESIGN.md 3/C03",
+    ),
+    "C16": (
+        "model_checking",
+        "bounded-exhaustive enumeration of grammars x precedence configurations; all states x tokens x rules, every query view compared with every other and with a reference LR(1) closure",
+        "Same specification space as C03 (so %nonassoc-erased and precedence-resolved cells are present); for every state every token and rule: state_actions / state_shifts / action / goto / edges / core_reduces / reduce_only_state are compared pairwise, every state must be reachable from the start state, every edge's target kernel must be the advanced item set, and every closed state must equal an independently computed LR(1) closure of its core state, lookahead for lookahead.",
+        "Reference closure uses the reference FIRST/nullable (validated in C17). States without any action may answer reduce_only_state either way.",
+        "DESIGN.md 3/C16",
+    ),
     "C17": (
         "model_checking",
         "bounded-exhaustive enumeration of grammars x cost vectors against fixed-point reference models; watched child processes for termination",
